@@ -297,9 +297,12 @@ func (p *parser) bitShift() ast.Expression {
 		rhs := p.term()
 		p.consumeSeq(token.BIT, token.NACH)
 		if !p.matchAny(token.LINKS, token.RECHTS) {
-			p.err(ddperror.SYN_UNEXPECTED_TOKEN, p.peek().Range, ddperror.MsgGotExpected(p.peek().Literal, "Links", "Rechts"))
+			// the node keeps its own error, also when that error is not reported because an earlier one of the statement was
+			// (p.lastError is then the earlier one, and its range lies somewhere else)
+			err := ddperror.New(ddperror.SYN_UNEXPECTED_TOKEN, ddperror.LEVEL_ERROR, p.peek().Range, ddperror.MsgGotExpected(p.peek().Literal, "Links", "Rechts"), p.module.FileName)
+			p.errVal(err)
 			return &ast.BadExpr{
-				Err: p.lastError,
+				Err: err,
 				Tok: expr.Token(),
 			}
 		}
@@ -743,9 +746,12 @@ func (p *parser) primary(lhs ast.Expression) ast.Expression {
 			}
 		}
 	default:
-		p.err(ddperror.SYN_UNEXPECTED_TOKEN, p.previous().Range, ddperror.MsgGotExpected(p.previous().Literal, "ein Literal", "ein Name"))
+		// the node keeps its own error, also when that error is not reported because an earlier one of the statement was
+		// (p.lastError is then the earlier one, and its range lies somewhere else)
+		err := ddperror.New(ddperror.SYN_UNEXPECTED_TOKEN, ddperror.LEVEL_ERROR, p.previous().Range, ddperror.MsgGotExpected(p.previous().Literal, "ein Literal", "ein Name"), p.module.FileName)
+		p.errVal(err)
 		lhs = &ast.BadExpr{
-			Err: p.lastError,
+			Err: err,
 			Tok: *tok,
 		}
 	}
